@@ -5,6 +5,8 @@ package rtsp
 
 import (
 	"bufio"
+	"bytes"
+	"net/url"
 
 	"github.com/cnotch/xlog"
 )
@@ -25,4 +27,18 @@ func (a verifReceiveAdapter) onPack(pack *RTPPack) error      { return a.h.OnPac
 // VerifReceive runs the session/pull-client message dispatcher `receive` once on r.
 func VerifReceive(r *bufio.Reader, channels []int, h *VerifReceiveHandler) error {
 	return receive(xlog.New(nil), r, channels, verifReceiveAdapter{h})
+}
+
+// VerifPullClientURL returns the URL a pull client configured with remoteURL keeps for its
+// requests (default port added, userinfo removed) and the bytes of the first request it emits.
+func VerifPullClientURL(localPath, remoteURL string) (*url.URL, []byte, error) {
+	c, err := NewPullClient(localPath, remoteURL)
+	if err != nil {
+		return nil, nil, err
+	}
+	var buf bytes.Buffer
+	if err := c.newRequest(MethodDescribe, nil).Write(&buf); err != nil {
+		return nil, nil, err
+	}
+	return c.url, buf.Bytes(), nil
 }
